@@ -14,7 +14,7 @@ OFFSET_MS = 946684800000
 U64 = 2 ** 64
 BASES = [1759276800000, OFFSET_MS + 1, OFFSET_MS + 1000, U64 - 2]     # T; T-1 and T+1 stay inside [OFFSET, 2^64)
 RELEASE = True          # debug and release builds of the harness (debug_assert!, overflow checks, cfg(debug_assertions))
-RULE = ("SCHEDX lines = the same schedules with the calls going through new_std_payload_bundle / new_status_report_bundle / the C interface's bundle_new_default in rotation with now() (every public entry point that generates a fresh creation timestamp must draw from the one shared generator); SCHED lines: 2-3 (corpus: 1-4) threads x 1-3 calls, clock readings drawn from {T-1, T, T+1} around a base T "
+RULE = ("SCHEDR lines = the same schedules with the calls going through helpers::rnd_bundle(CreationTimestamp::now()) / the C interface's helper_rnd_bundle (two draws per call: uniqueness only); SCHEDX lines = the same schedules with the calls going through new_std_payload_bundle / new_status_report_bundle / the C interface's bundle_new_default in rotation with now() (every public entry point that generates a fresh creation timestamp must draw from the one shared generator); SCHED lines: 2-3 (corpus: 1-4) threads x 1-3 calls, clock readings drawn from {T-1, T, T+1} around a base T "
         "(a 2025 date, the DTN epoch + 1, u64::MAX - 1) plus far-apart readings; schedules are random grant sequences "
         "(0 .. 4 grants per call, so both 2-step and 3/4-step implementations are interleaved at every yield point), exact "
         "interleavings, whole-call orders (O) and sequential bursts of 300 / 66000 calls inside one millisecond (sequence numbers beyond 8 and 16 bits); thorough adds every interleaving of 2 threads x 2 calls and 3 x 1 at 2 and "
@@ -56,7 +56,7 @@ def parse(line):
     tok = line.split()
     if tok and tok[0] in ("D", "R"):
         tok = tok[1:]
-    if len(tok) < 3 or tok[0] not in ("SCHED", "SCHEDX", "SCHEDT") or not tok[1].isdigit():
+    if len(tok) < 3 or tok[0] not in ("SCHED", "SCHEDX", "SCHEDT", "SCHEDR") or not tok[1].isdigit():
         return None
     n = int(tok[1])
     readings, i, whole = [], 2, None
@@ -157,6 +157,7 @@ def corpus():
     ]
     out += [l.replace("SCHED ", "SCHEDX ", 1) for l in out if len(l) < 100000]
     out += [l.replace("SCHED ", "SCHEDT ", 1) for l in out if l.startswith("SCHED ") and len(l) < 100000]
+    out += [l.replace("SCHED ", "SCHEDR ", 1) for l in out if l.startswith("SCHED ") and len(l) < 20000]
     # the free-running stress of the property text: a fresh process each, threads released together, real clock, no hooks - the very
     # first calls of a process race each other
     out += ["STRESS 16 200", "STRESS 16 1", "STRESS 2 1", "STRESS 64 3", "STRESS 3 1000", "STRESS 16 2", "STRESS 32 1", "STRESS 8 1"]
@@ -222,7 +223,8 @@ def cases(rng, tier):
     # the same schedules with the calls going through the crate's other entry points that generate a fresh creation timestamp
     # (new_std_payload_bundle, new_status_report_bundle in rotation with now()): same expected result
     return (out + [l.replace("SCHED ", "SCHEDX ", 1) for l in out[::4] if l.startswith("SCHED ")]
-            + [l.replace("SCHED ", "SCHEDT ", 1) for l in out[1::3] if l.startswith("SCHED ")])
+            + [l.replace("SCHED ", "SCHEDT ", 1) for l in out[1::3] if l.startswith("SCHED ")]
+            + [l.replace("SCHED ", "SCHEDR ", 1) for l in out[2::5] if l.startswith("SCHED ")])
 
 
 def _cases(rng, tier):
@@ -304,7 +306,8 @@ def oracle(line, out, mode):
         if got != len(r):
             return "thread %d made %d calls but %d returned" % (t, len(r), got)
     if _ticking(line):
-        return None                      # a clock that ticks INSIDE a call: which reading a call uses is free, only uniqueness is judged
+        return None                      # a clock that ticks INSIDE a call (SCHEDT): which reading a call uses is free; the random-bundle
+                                         # helpers (SCHEDR) draw two timestamps per call: only uniqueness is judged
     order = non_overlapping_order(readings, whole, entries)
     if order is not None:
         want = sequential_spec(readings, order)
@@ -315,7 +318,7 @@ def oracle(line, out, mode):
 
 def _ticking(line):
     t = line.split()
-    return bool(t) and (t[0] == "SCHEDT" or (len(t) > 1 and t[0] in ("D", "R") and t[1] == "SCHEDT"))
+    return bool(t) and (t[0] in ("SCHEDT", "SCHEDR") or (len(t) > 1 and t[0] in ("D", "R") and t[1] in ("SCHEDT", "SCHEDR")))
 
 
 def same(line, io, mo):
